@@ -485,6 +485,15 @@ func init() {
 		panic(targetPanic{e.mkStr("os.Exit")})
 	}
 
+	// string-producing formatters of common types: an opaque token
+	for _, n := range []string{"(" + ModPath + "/common.Address).String", "(" + ModPath + "/common.Address).Hex",
+		"(" + ModPath + "/common.Hash).String", "(" + ModPath + "/common.Hash).Hex", "(" + ModPath + "/common.Hash).TerminalString",
+		"(" + ModPath + "/common.Address).TerminalString", ModPath + "/common/hexutil.Encode", "encoding/hex.EncodeToString",
+		"(" + ModPath + "/common.StorageSize).String", "(" + ModPath + "/common.PrettyDuration).String"} {
+		n := n
+		intrinsics[n] = func(e *Engine, fr *frame, a []Value) Value { return strV{opaque: n} }
+	}
+
 	// ---- time ----
 	intrinsics["time.Now"] = func(e *Engine, fr *frame, a []Value) Value {
 		fn := fr.fn
